@@ -44,7 +44,8 @@ class ParticleSwarm(object):
     @property
     def relative_ess(self):
         """ESS normalized to number of particles."""
-        return self.ess / self.num_particles
+        # the effective sample size cannot exceed the number of particles: do not let rounding say otherwise
+        return min(self.ess / self.num_particles, 1.0)
 
     @property
     def unnormalized_log_weights(self):
